@@ -224,3 +224,14 @@ package retrypolicy
 //@   ensures [C16.retry.events] (e.onRetry != nil ==> ncalls(e.onRetry) == n - 1) && (e.onRetryScheduled != nil ==> n - 1 <= ncalls(e.onRetryScheduled) && ncalls(e.onRetryScheduled) <= n) && ncalls(e.onAbort) <= 1 && ncalls(e.onRetriesExceeded) <= 1
 //@   havoc
 //@   modifies e.failedAttempts, e.retriesExceeded, e.lastDelay, calls(innerFn), calls(e.onAbort), calls(e.onRetriesExceeded), calls(e.onFailure), calls(e.onSuccess), calls(e.onRetry), calls(e.onRetryScheduled), calls(e.DelayFunc), calls(exec.CopyWithResult), methodcalls, calls(exec.IsCanceledWithResult), calls(exec.RecordResult), calls(exec.InitializeRetry), calls(exec.Canceled)
+
+// C14 (confinement): hedge attempts call their inner function from several goroutines at once. The retry closure keeps
+// failedAttempts / retriesExceeded / lastDelay on its executor without a lock and is therefore not declared 'reentrant'.
+//@ func lemmaHedgeOverRetry
+//@   noexitcover
+//@   dyntype hedgepolicy.HedgePolicy *hedgepolicy.hedgePolicy only
+//@   requires hp != nil && typeis(hp, *hedgepolicy.hedgePolicy) && e != nil && fn != nil && typeis(exec, *failsafe.execution)
+//@   requires asref(hp, *hedgepolicy.hedgePolicy).config != nil && asref(hp, *hedgepolicy.hedgePolicy).config.BaseAbortablePolicy != nil && asref(hp, *hedgepolicy.hedgePolicy).config.delayFunc != nil
+//@   requires 0 <= asref(hp, *hedgepolicy.hedgePolicy).config.maxHedges && asref(hp, *hedgepolicy.hedgePolicy).config.maxHedges <= 1073741824
+//@   havoc
+//@   modifies *
